@@ -32,7 +32,7 @@ SHAPES = [("cat", "cat")] * 4 + [("mr", "cat"), ("cat", "mr"), ("na", "cat"), ("
 @st.composite
 def case_st(draw, shapes):
     sc = draw(scen.scenario_st(shapes, measure="always", stats=["sum"], min_valid=1,
-                               max_valid=4))
+                               max_valid=4, weight_kinds=scen.WEIGHTS_INEXACT))
     tx, inforce = draw(xforms.slice_insertions_st(sc, where="either", max_ins=3,
                                                   allow_malformed=False))
     sc["transforms"] = tx
